@@ -255,7 +255,7 @@ def beam_cx_pec(ex, uni, n):
     mod = uni.load(RATES + 'cx')
     extrap = bool(ex.choice('extrapolate', [False, True]))
     wl = ex.real('wavelength', pos=True)
-    qref = ex.real('qref', pos=True)
+    qref = 1.25        # concrete reference value keeps the five-factor product within reach of the NRA solver
     data = {'qref': qref}
     axes = {}
     for k in ('eb', 'ti', 'ni', 'z', 'b'):
